@@ -74,7 +74,7 @@ BUILT = {
             'n <= 14 (24 thorough); 1e-9 tolerance relative to ||A||', '4 (C14)'),
     'C15': ('Hypothesis random search with Krylov dimension known by construction; numpy eigvalsh / scipy expm oracle',
             'Exploration: Ritz bounds, norm preservation, exactness of both exponential branches and of the lowest Ritz value once the Krylov '
-            'space is exhausted, Rayleigh-quotient consistency below that point; one clause is excluded on the listed known finding F5.',
+            'space is exhausted, Rayleigh-quotient consistency below that point; the map is handed over as a fresh-array, buffer-reusing or strided function, the start vector also with boolean / integer dtype, results are judged after later library calls; one clause is excluded on the listed known finding F5.',
             'n <= 14 (24 thorough); scipy.linalg.expm and numpy eigvalsh trusted; |dt| ||A|| <= 4', '4 (C15)'),
     'C16': ('Hypothesis-generated rewrite histories (step lists interpreted against the graph, shrinkable, JSON-replayable); free-algebra oracle after every step',
             'Exploration: generated consistent layered graphs (parallel / multi-operator / cancelling edges, twin nodes, charges, colliding id schemes) undergo up to 15 (25) '
